@@ -66,14 +66,10 @@ type table struct {
 	// manySignatures and oneSignatures map series IDs to match group IDs.
 	manySignatures []int
 	oneSignatures  []int
-	// outputGroups maps an output series ID to the ID shared by all output
-	// series with the same labels.
-	outputGroups []int
-
-	epoch        uint64
-	oneSamples   []oneSideSample
-	matchedGroup []uint64
-	outputSeen   []uint64
+	epoch          uint64
+	oneSamples     []oneSideSample
+	matchedGroup   []uint64
+	outputSeen     []uint64
 }
 
 func newTable(
@@ -84,7 +80,7 @@ func newTable(
 	manySignatures []int,
 	oneSignatures []int,
 	numSignatures int,
-	outputGroups []int,
+	numOutputs int,
 ) *table {
 	return &table{
 		pool: pool,
@@ -94,11 +90,10 @@ func newTable(
 		manyOutputIndex: manyOutputIndex,
 		manySignatures:  manySignatures,
 		oneSignatures:   oneSignatures,
-		outputGroups:    outputGroups,
 
 		oneSamples:   make([]oneSideSample, numSignatures),
 		matchedGroup: make([]uint64, numSignatures),
-		outputSeen:   make([]uint64, len(outputGroups)),
+		outputSeen:   make([]uint64, numOutputs),
 	}
 }
 
@@ -164,14 +159,13 @@ func (t *table) execBinaryOperation(lhs model.StepVector, rhs model.StepVector, 
 			}
 			t.matchedGroup[group] = t.epoch
 		} else {
-			outputGroup := t.outputGroups[*outputSampleID]
-			if t.outputSeen[outputGroup] == t.epoch {
+			if t.outputSeen[*outputSampleID] == t.epoch {
 				t.pool.PutStepVector(step)
 				return model.StepVector{}, &errManyToManyMatch{
 					multipleMatches: "multiple matches for labels: grouping labels must ensure unique matches",
 				}
 			}
-			t.outputSeen[outputGroup] = t.epoch
+			t.outputSeen[*outputSampleID] = t.epoch
 		}
 
 		step.SampleIDs = append(step.SampleIDs, *outputSampleID)
